@@ -70,7 +70,7 @@ def gen_values(rng, around):
 
 
 def cases(seed, tier):
-    per = 150 if tier == "quick" else 2000
+    per = 300 if tier == "quick" else 2000
     rng = random.Random(seed * 1000003 + 8)
     for i in range(per * len(DETS) // 3):
         cid = "C08-%d-%d" % (seed, i)
